@@ -1648,7 +1648,7 @@ static inline int uref_##group##_copy_##attr(struct uref *uref,             \
  * @return an error code                                                    \
  */                                                                         \
 static inline int uref_##group##_match_##attr(struct uref *uref,            \
-                                              uint8_t min, uint8_t max,     \
+                                              uint64_t min, uint64_t max,   \
                                               args_decl)                    \
 {                                                                           \
     uint64_t v;                                                             \
@@ -1737,7 +1737,7 @@ static inline void uref_##group##_copy_##attr(struct uref *uref,            \
  * @return an error code                                                    \
  */                                                                         \
 static inline int uref_##group##_match_##attr(struct uref *uref,            \
-                                              uint8_t min, uint8_t max)     \
+                                              uint64_t min, uint64_t max)   \
 {                                                                           \
     uint64_t v;                                                             \
     UBASE_RETURN(uref_##group##_get_##attr(uref, &v));                      \
